@@ -12,7 +12,7 @@
 (* Router semantics (Decide, FirstMatch, Lifetime, Aged, EcsOption, ...)   *)
 (* come from Router.tla; domain-set matching from DomainSet.tla.           *)
 (***************************************************************************)
-EXTENDS TraceBase, FiniteSets, DomainLines, RouterOps
+EXTENDS TraceBase, FiniteSets, DomainLines, RouterOps, Wire
 
 VARIABLES l,
           cfg,       \* [rules, sets (tag -> entries), ecs, cache, maxttl]
@@ -168,7 +168,7 @@ ClNone == /\ IsEvent("cl.none")
           /\ UNCHANGED <<cfg, q, answered, upsent, upq, stores, pf, fwd, seen, outst>>
 
 \* ---------------------------------------------------------------- upstreams
-AskedBy(n, c, t) == \E k \in DOMAIN q : LowerName(q[k].name) = n /\ q[k].cls = c /\ q[k].typ = t /\ Supported(q[k])
+AskedBy(n, c, t) == \E k \in DOMAIN q : IF Has(q[k], "name") THEN LowerName(q[k].name) = n /\ q[k].cls = c /\ q[k].typ = t /\ Supported(q[k]) ELSE FALSE
 
 EcsOk(ev) ==
     IF ~cfg.ecs THEN ~ev.ecs
@@ -261,11 +261,25 @@ Boot == /\ IsEvent("boot")
         /\ Report(l, IF Trace[l].started = ValidConfig(Trace[l]) THEN {} ELSE {"Inv_C10_StrictConfig"})
         /\ UNCHANGED <<cfg, q, answered, upsent, upq, stores, pf, fwd, seen, outst>>
 
+\* C01: input that cannot be decoded is rejected in the listener's way; decodable input is answered
+RawSend == IsEvent("raw.send") /\ q' = With(q, Trace[l].qn, Trace[l]) /\ UNCHANGED <<cfg, answered, upsent, upq, stores, pf, fwd, seen, outst>>
+RejectKinds(lst) == IF lst = "udp" THEN {"none"}
+                    ELSE IF lst \in {"tcp", "gnet", "tls", "quic"} THEN {"closed", "none"}
+                    ELSE {"http400"}
+RawOut == /\ IsEvent("raw.out")
+          /\ LET ev == Trace[l]  s == q[ev.qn]
+                 exact == s.framelen = Len(s.in)
+                 dec == DecMsg(s.in).ok
+                 expected == IF ~exact THEN {"closed", "none", "resp"}     \* a lying length prefix desynchronises the stream: any non-crash outcome
+                             ELSE IF dec THEN {"resp"} ELSE RejectKinds(ev.lst)
+             IN Report(l, IF ev.outcome \in expected THEN {} ELSE {"Inv_C01_Reject"})
+          /\ UNCHANGED <<cfg, q, answered, upsent, upq, stores, pf, fwd, seen, outst>>
+
 Other == (IsEvent("lim.cl") \/ IsEvent("note") \/ IsEvent("up.recv.bad"))
          /\ UNCHANGED <<cfg, q, answered, upsent, upq, stores, pf, fwd, seen, outst>>
 
 Next == Cfg \/ ClSend \/ ClRecv \/ ClNone \/ UpRecv \/ UpSend \/ RtRule \/ RtFwd \/ RtDone \/ RtReq
-        \/ Boot \/ CacheGet \/ CacheStore \/ CacheStored \/ PfReserve \/ PfDone \/ Other
+        \/ RawSend \/ RawOut \/ Boot \/ CacheGet \/ CacheStore \/ CacheStored \/ PfReserve \/ PfDone \/ Other
 Spec == Init /\ [][Next]_tvars
 Post == Consumed
 =============================================================================
